@@ -93,6 +93,19 @@ class Poly:
     __repr__ = __str__
 
 
+def _seq_like(n: ast.AST) -> bool:
+    """Syntactically a list / tuple / string (or a concatenation / repetition involving one)."""
+    if isinstance(n, (ast.List, ast.Tuple, ast.ListComp, ast.JoinedStr)):
+        return True
+    if isinstance(n, ast.Constant) and isinstance(n.value, (str, bytes)):
+        return True
+    if isinstance(n, ast.BinOp) and isinstance(n.op, (ast.Add, ast.Mult)):
+        return _seq_like(n.left) or _seq_like(n.right)
+    if isinstance(n, ast.Call) and isinstance(n.func, ast.Name) and n.func.id in ("list", "tuple", "str", "bytes"):
+        return True
+    return False
+
+
 def canon(node: ast.AST, env: Optional[Dict[str, ast.AST]] = None, _depth: int = 0) -> str:
     """Canonical text of any expression (arithmetic parts in polynomial normal form)."""
     return str(poly(node, env, _depth))
@@ -125,6 +138,11 @@ def poly(node: ast.AST, env: Optional[Dict[str, ast.AST]] = None, _depth: int = 
         if isinstance(node.op, ast.Not):
             return Poly.atom(f"not({rec(node.operand)})")
     if isinstance(node, ast.BinOp):
+        if isinstance(node.op, ast.Add) and (_seq_like(node.left) or _seq_like(node.right)):
+            # list / tuple / string concatenation is not commutative
+            return Poly.atom(f"concat({canon(node.left, env, _depth + 1)}, {canon(node.right, env, _depth + 1)})")
+        if isinstance(node.op, ast.Mult) and (_seq_like(node.left) or _seq_like(node.right)):
+            return Poly.atom(f"repeat({canon(node.left, env, _depth + 1)}, {canon(node.right, env, _depth + 1)})")
         l, r = rec(node.left), rec(node.right)
         if isinstance(node.op, ast.Add):
             return l + r
